@@ -271,6 +271,45 @@ fn handle_on_connection(
         | TcpState::CloseWait
         | TcpState::Closing
         | TcpState::LastAck => {
+            // The application has dropped this socket; it only lingers to
+            // finish the close handshake, so nobody can ever read what
+            // arrives now. Like Linux, answer new data with RST and tear
+            // the connection down. Buffering it instead closes the window
+            // for good: the peer's writer, and the FIN queued behind its
+            // unsent bytes, would wait forever and neither side's entries
+            // would ever be reclaimed.
+            let orphaned_new_data = {
+                let st = k.lookup(fd).unwrap();
+                let tcb = st.tcb.as_ref().unwrap();
+                let skip = tcb.rcv_nxt.wrapping_sub(s.seq) as usize;
+                st.fd_closed && !s.payload.is_empty() && skip < s.payload.len() && !tcb.peer_fin
+            };
+            if orphaned_new_data {
+                let (seq, ack) = {
+                    let tcb = k.lookup(fd).unwrap().tcb.as_ref().unwrap();
+                    (tcb.snd_nxt, tcb.rcv_nxt)
+                };
+                emit(
+                    k,
+                    local,
+                    remote,
+                    TcpSegment {
+                        src_port: local.port(),
+                        dst_port: remote.port(),
+                        seq,
+                        ack,
+                        flags: TcpFlags {
+                            rst: true,
+                            ack: true,
+                            ..TcpFlags::default()
+                        },
+                        window: 0,
+                        payload: Bytes::new(),
+                    },
+                );
+                abort_connection(k, fd);
+                return;
+            }
             if s.flags.syn {
                 // A retransmitted SYN-ACK: the peer never saw our handshake
                 // ACK. Nothing in the segment is new, but it must be
